@@ -65,9 +65,9 @@ func zzC11RegOpt(n int) zzURIOpt {
 
 func zzC11ReqOpt() zzURIOpt {
 	if zz.Thorough() {
-		return zzURIOpt{SchemeKinds: 3, HostKinds: 8, HostLen: 20}
+		return zzURIOpt{SchemeKinds: 3, HostKinds: 8, AltHosts: 2, HostLen: 20}
 	}
-	return zzURIOpt{SchemeKinds: 3, HostKinds: 3, HostLen: 12}
+	return zzURIOpt{SchemeKinds: 3, HostKinds: 3, AltHosts: 2, HostLen: 12}
 }
 
 func zzC11MaxReg() int {
